@@ -3,8 +3,18 @@
 optional whitespace around separators and empty list elements never change what `_parse_string_array` returns.
 
 Correspondence: the model `CpModel/Text/Scan.lean` against the REAL `ParserText` methods, op by op
-(TA `_parse_string_array`, TU `_parse_string_until_separator`, TC `_check_separators`, TN `parse_numeric`,
-TS `parse_string`, TL `_parse_string_by_length`, TK cost model).  Implementation-side oracle: spelling variants parse like the canonical spelling."""
+(TA `_parse_string_array`, TU `_parse_string_until_separator`, TAQ / TUQ the same two calls with `quote_aware=True`,
+TC `_check_separators`, TN `parse_numeric`, TS `parse_string`, TL `_parse_string_by_length`, TK cost model, TKQ cost model
+of the quote-aware call).
+Implementation-side oracle: spelling variants parse like the canonical spelling.
+
+`quote_aware=True` (the repair behind `NameValuePairList`, i.e. HTTP header value lists and DNS TXT policy records): a
+separator inside an RFC 7230 3.2.6 quoted-string (DQUOTE ... DQUOTE, backslash quoted-pair, an unclosed quoted-string
+extends to the end of the input) does not split.  REQUIRED since that repair (finding key `quoted-separator:split`): a
+list rendered from trimmed non-empty items whose separators all lie inside balanced quoted-strings, spelled with any
+whitespace / empty elements, parses to exactly these items; the whitespace / empty-element invariance holds around every
+separator that an independent reference tokenizer (`quote_states`) places OUTSIDE quoted-strings.  A library without the
+`quote_aware` parameter (TypeError) violates `quoted-separator:split` on every quote-aware case."""
 from __future__ import print_function
 
 import itertools
@@ -22,8 +32,19 @@ RULE = ('_parse_string_array: every (separator, separator_spaces, skip_empty, ma
         'separator; _parse_string_until_separator: every separator list used under /repo plus tie/ordering/empty cases, '
         'may_end on/off, offsets 0..len+1, with and without separator_spaces; _check_separators: sets x min x max x offsets; '
         'parse_numeric: digit runs incl. 4300/4301 digits; parse_string; cost model: ticks of the model against line events of the '
-        'real call on 8 scalable shapes at sizes 64..256 (thorough: ..2048). A case is non-trivial when the input contains a '
-        'separator or a whitespace byte; distinct by (op, parameters, input).')
+        'real call on 8 scalable shapes at sizes 64..256 (thorough: ..2048). quote_aware=True (TAQ/TUQ): the NameValuePairList '
+        'combinations ("," | ";", SP HTAB, skip_empty) plus strict / no-whitespace / two-byte separator sets / max_item_num / '
+        'separator = DQUOTE / separator = backslash, on (a) every string of length <= 6 (quick; other combinations <= 4..5) / <= 7 '
+        '(thorough; <= 5..6) over {a, DQUOTE, backslash, separator(s), SP}, (b) seeded strings dense in DQUOTE, backslash, '
+        'separators, whitespace and non-ASCII bytes, (c) lists of items that are tokens and quoted-strings containing the '
+        'separator, escaped quotes and escaped backslashes, rendered with random whitespace and empty elements (REQUIRED: exactly '
+        'these items), (d) malformed inputs: unbalanced quotes, a backslash at the end, a quote behind a backslash outside quotes, '
+        'nested-looking quotes, and one-byte mutations of (c); TUQ: every separator list of TU plus DQUOTE / backslash / '
+        'multi-byte lists, offsets inside / at the end / behind the end, may_end 0/1, separator_spaces "" / SP / SP HTAB, every '
+        'string of length <= 3 (thorough <= 4) over {a, DQUOTE, backslash, ";", SP} at every offset; TKQ: ticks of the quote-aware '
+        'cost model (bound 21*len+15) against line events of the real quote-aware call on the 8 shapes plus 8 quoted shapes (quoted '
+        'items, one long / unclosed quoted-string, escapes, runs of DQUOTE / backslash), same envelope. A case is non-trivial when '
+        'the input contains a separator or a whitespace byte; distinct by (op, parameters, input).')
 ASSUMPTIONS = [
     'only item_class=str / fallback_class=None is driven through the scanner ops; item classes are the header layer (C18 proper)',
     'separator and separator_spaces parameters are ASCII (they are literals in /repo)',
@@ -75,19 +96,20 @@ def _items_line(items, off):
 # TA  _parse_string_array
 # ------------------------------------------------------------------------------------------------
 
-def real_array(data, sep, ws, skip, mx):
+def real_array(data, sep, ws, skip, mx, qa=False):
     from cryptoparser.common.parse import ParserText
+    extra = {'quote_aware': True} if qa else {}     # (not passed at all for the plain call: libraries without the parameter)
 
     def fn():
         p = ParserText(data)
-        p.parse_string_array('x', _text(sep), separator_spaces=_text(ws), skip_empty=bool(skip), max_item_num=mx)
+        p.parse_string_array('x', _text(sep), separator_spaces=_text(ws), skip_empty=bool(skip), max_item_num=mx, **extra)
         return p['x'], p.parsed_length
     return timed(fn, TIME_LIMIT)
 
 
-def array_line(data, sep, ws, skip, mx):
+def array_line(data, sep, ws, skip, mx, qa=False):
     try:
-        items, off = real_array(data, sep, ws, skip, mx)
+        items, off = real_array(data, sep, ws, skip, mx, qa)
     except Timeout:
         return 'CRASH Timeout'
     except Exception as e:  # pylint: disable=broad-except
@@ -109,57 +131,129 @@ def _insert_ws(data, sep, ws, doubled):
     return bytes(out)
 
 
+# ---- quote_aware=True: the reference reading of RFC 7230 3.2.6 (written from the RFC, shares nothing with the library) ----
+
+Q_OUT, Q_IN, Q_PAIR = 0, 1, 2
+NO_QUOTE_AWARE = 'CRASH TypeError'      # what a library without the `quote_aware` parameter answers to a quote-aware call
+_no_quote_aware_reported = set()
+
+
+def no_quote_aware(op, message):
+    """the violation `quoted-separator:split` of a library that has no quote-aware splitting at all: reported on the first
+    case of each op of a process (every quote-aware case fails the same way; a replay of any of them reproduces it)"""
+    if op in _no_quote_aware_reported:
+        return []
+    _no_quote_aware_reported.add(op)
+    return [('quoted-separator:split', message)]
+
+
+def quote_states(data):
+    """states[i] = where byte i stands, states[len] = where the input ends: Q_OUT outside any quoted-string (an opening
+    DQUOTE itself stands outside), Q_IN inside one (qdtext, the closing DQUOTE, the backslash of a quoted-pair), Q_PAIR the
+    second byte of a quoted-pair.  `quoted-string = DQUOTE *( qdtext / quoted-pair ) DQUOTE`, `quoted-pair = "\\" any`;
+    a backslash outside a quoted-string is an ordinary byte; a quoted-string that is not closed extends to the end."""
+    states, state = [], Q_OUT
+    for x in bytearray(data):
+        states.append(state)
+        if state == Q_OUT:
+            state = Q_IN if x == 0x22 else Q_OUT
+        elif state == Q_IN:
+            state = Q_PAIR if x == 0x5c else (Q_OUT if x == 0x22 else Q_IN)
+        else:
+            state = Q_IN
+    states.append(state)
+    return states
+
+
+def _insert_ws_q(data, sep, ws, doubled):
+    """`_insert_ws` for a quote-aware list: only the separators OUTSIDE quoted-strings are list separators"""
+    w = ws[:1]
+    states = quote_states(data)
+    out = bytearray(w)
+    for i, x in enumerate(bytearray(data)):
+        if x in bytearray(sep) and states[i] == Q_OUT:
+            out += w + bytes(bytearray([x])) * (2 if doubled else 1) + w
+        else:
+            out.append(x)
+    out += w
+    return bytes(out)
+
+
+def quoted_item_ok(item, sep, ws):
+    """a list element in the sense of the REQUIRED behaviour: non-empty, trimmed, quotes balanced, and the separator occurs
+    only inside its quoted-strings"""
+    if not item or item.strip(ws) != item:
+        return False
+    states = quote_states(item)
+    if states[-1] != Q_OUT:
+        return False
+    return all(states[i] != Q_OUT for i, x in enumerate(bytearray(item)) if x in bytearray(sep))
+
+
 class ArrayOracle(object):
-    """case {'kind':'ta','sep':hex,'ws':hex,'skip':0/1,'max':None|n,'data':hex,'items':[hex,…] (optional)}"""
+    """case {'kind':'ta','sep':hex,'ws':hex,'skip':0/1,'max':None|n,'data':hex,'items':[hex,…] (optional),
+    'qa':1 (optional: `quote_aware=True`, driver op TAQ)}"""
 
     @staticmethod
     def lines(case):
-        return ['TA {} {} {} {} {}'.format(case['sep'], case['ws'], case['skip'], _opt(case['max']), case['data'])]
+        return ['{} {} {} {} {} {}'.format('TAQ' if case.get('qa') else 'TA', case['sep'], case['ws'], case['skip'],
+                                           _opt(case['max']), case['data'])]
 
     @staticmethod
     def impl(case):
-        return [array_line(unhx(case['data']), unhx(case['sep']), unhx(case['ws']), case['skip'], case['max'])]
+        return [array_line(unhx(case['data']), unhx(case['sep']), unhx(case['ws']), case['skip'], case['max'],
+                           bool(case.get('qa')))]
 
     @staticmethod
     def prop(case):
         """C18 on the real code: a spelling variant parses to the same items as the canonical spelling."""
         bad = []
         data, sep, ws = unhx(case['data']), unhx(case['sep']), unhx(case['ws'])
-        skip, mx = case['skip'], case['max']
-        got = array_line(data, sep, ws, skip, mx)
+        skip, mx, qa = case['skip'], case['max'], bool(case.get('qa'))
+        call = '_parse_string_array' + ('[quote_aware]' if qa else '')
+        got = array_line(data, sep, ws, skip, mx, qa)
         if got == 'CRASH Timeout':
-            return [('array-hang', '_parse_string_array does not terminate within {}s on {!r} (sep {!r} ws {!r} skip {})'.format(
-                TIME_LIMIT, data, sep, ws, skip))]
+            return [('array-hang', '{} does not terminate within {}s on {!r} (sep {!r} ws {!r} skip {})'.format(
+                call, TIME_LIMIT, data, sep, ws, skip))]
+        if qa and got == NO_QUOTE_AWARE:
+            return no_quote_aware('ta', 'parse_string_array(..., quote_aware=True) raises TypeError: the library has no quote-aware '
+                                  'splitting, a separator inside a quoted-string splits the list (input {!r} sep {!r}; every quote-aware '
+                                  'case fails like this, reported once)'.format(data, sep))
         if got.startswith('CRASH'):
-            bad.append(('array-crash', '_parse_string_array({!r}, sep {!r} ws {!r} skip {} max {}) -> {}'.format(
-                data, sep, ws, skip, mx, got)))
+            bad.append(('array-crash', '{}({!r}, sep {!r} ws {!r} skip {} max {}) -> {}'.format(
+                call, data, sep, ws, skip, mx, got)))
         if len(sep) != 1 or sep in ws or mx is not None:
             return bad
+        if qa and sep in (b'"', b'\\'):
+            return bad                  # DQUOTE / backslash as the list separator: correspondence only, no RFC reading
         if case.get('items') is not None:
-            # rendered from a list of trimmed, non-empty, separator-free items: must give exactly that list,
-            # and so must the canonical spellings "a;b" and "a; b"
+            # rendered from a list of trimmed, non-empty items that are separator-free (quote-aware: the separator only
+            # inside balanced quoted-strings): must give exactly that list, and so must the canonical spellings
+            # "a;b" and "a; b"
             want = [unhx(i) for i in case['items']]
+            usable = not qa or all(quoted_item_ok(i, sep, ws) for i in want)
             for spelling in (data, sep.join(want), (sep + b' ').join(want) if b' ' in ws else sep.join(want)):
-                if not want and not skip:
+                if (not want and not skip) or not usable:
                     continue
-                line = array_line(spelling, sep, ws, skip, None)
+                line = array_line(spelling, sep, ws, skip, None, qa)
                 exp = 'OK {} [{}]'.format(len(spelling), ','.join(hx(i) for i in want))
                 if line != exp:
-                    bad.append(('array-variant', 'items {!r} spelled {!r} (sep {!r} ws {!r} skip {}) parsed as {} expected {}'.format(
-                        want, spelling, sep, ws, skip, line, exp)))
+                    bad.append(('quoted-separator:split' if qa else 'array-variant',
+                                'items {!r} spelled {!r} (sep {!r} ws {!r} skip {}{}) parsed as {} expected {}'.format(
+                                    want, spelling, sep, ws, skip, ' quote_aware' if qa else '', line, exp)))
         if ws:
             # metamorphic: whitespace around every separator and at both ends is insignificant; so are doubled separators
-            # when skip_empty
+            # when skip_empty.  quote-aware: the separators outside quoted-strings (reference tokenizer `quote_states`)
             for doubled in ((False, True) if skip else (False,)):
-                variant = _insert_ws(data, sep, ws, doubled)
-                other = array_line(variant, sep, ws, skip, None)
+                variant = _insert_ws_q(data, sep, ws, doubled) if qa else _insert_ws(data, sep, ws, doubled)
+                other = array_line(variant, sep, ws, skip, None, qa)
                 if got.split(' ', 2)[0] == 'OK' and other.split(' ', 2)[0] == 'OK':
                     same = got.split(' ', 2)[2] == other.split(' ', 2)[2] and other.split(' ')[1] == str(len(variant))
                 else:
                     same = got == other
                 if not same:
-                    bad.append(('array-invariance', '{!r} -> {} but variant {!r} -> {} (sep {!r} ws {!r} skip {})'.format(
-                        data, got, variant, other, sep, ws, skip)))
+                    bad.append(('array-invariance', '{!r} -> {} but variant {!r} -> {} (sep {!r} ws {!r} skip {}{})'.format(
+                        data, got, variant, other, sep, ws, skip, ' quote_aware' if qa else '')))
         return bad
 
 
@@ -244,17 +338,159 @@ def array_cases(rng, tier):
     return cases
 
 
+# ---- TAQ: `_parse_string_array(..., quote_aware=True)` --------------------------------------------------------------
+# under /repo/cryptoparser: common/field.py NameValuePairList (',' | ';', ' \t', skip_empty, quote_aware)
+Q_REPO_COMBOS = [(b',', b' \t', 1, None), (b';', b' \t', 1, None)]
+Q_MAIN_EXTRA = [(b';', b' \t', 0, None), (b',', b'', 0, None), (b';', b'', 1, None), (b';', b' ', 1, None)]   # strict, no whitespace
+Q_EXTRA_COMBOS = Q_MAIN_EXTRA + [
+    (b',;', b' ', 1, None), (b',;', b' \t', 0, None),                             # two-byte separator sets
+    (b';', b' ', 1, 1), (b';', b' \t', 1, 2), (b',', b'', 0, 2),                    # max_item_num
+    (b'"', b' ', 1, None), (b'"', b'', 0, None), (b'";', b' ', 1, None),            # the separator is DQUOTE
+    (b'\\', b' ', 1, None), (b'\\', b'', 0, None), (b'\\;', b' \t', 1, None),       # the separator is the backslash
+    (b' ', b'', 1, None), (b'', b' ', 1, None),                                    # SP separated, no separator at all
+]
+# malformed / borderline lists, written for ';' (replaced by the separator of the combination)
+Q_MALFORMED = [
+    b'"a; b', b'a"; b', b'a; b"', b'"a; b" c"; d', b'"a\\', b'a\\', b'a;\\', b'a; \\', b'"a\\"; b', b'"a\\\\"; b', b'"a\\\\\\"; b',
+    b'\\"; a', b'\\";a"', b'\\"; a"; b', b'a\\"b; c', b'a\\"b; c"; d', b'"a "b; c" d"; e', b'"a; "b; c" ;d"', b'""; a', b'"""; a',
+    b'""""; a', b'"a"b"c; d', b'x="a; y="b"; z', b'"; "; ";', b'";";";"', b'\\\\"; a', b'\\\\"; a"', b'"\\', b'"\\"', b'"\\""',
+    b'"\\"";a', b'a=";', b'a=";"', b'a=";";', b'";', b';"', b'";"', b' " ; " ', b'"a;b"\\;c', b'"a;b\\";c', b'"a;b\\\\";c',
+    b'"\xff;"; a', b'"a; b"\xff; c', b'"a; b" ; c', b'"a; b"  ', b'  "a; b', b'"a; b \t', b'a;"', b'a; " ', b'a;"\\', b'a; "b\\ ',
+    b'"a"; "b; c"; "d\\"; e"; f', b'x="a\\"; y; \\\\"; z', b"'a; b'", b'"a\r\n; b"; c', b'"\\;"; a', b'\\;"a; b"', b'"a;b', b'"',
+    b'""', b'\\', b'"\\\\', b';";', b';";"', b'; ";" ;',
+]
+
+
+def _rand_bytes_q(rng, n, sep):
+    """dense in DQUOTE, backslash, separators, whitespace; an occasional non-ASCII byte"""
+    out = bytearray()
+    for _ in range(n):
+        r = rng.random()
+        if r < 0.22:
+            out.append(0x22)
+        elif r < 0.36:
+            out.append(0x5c)
+        elif r < 0.56 and sep:
+            out.append(rng.choice(bytearray(sep)))
+        elif r < 0.70:
+            out += rng.choice([b' ', b'\t', b' '])
+        elif r < 0.75:
+            out.append(rng.choice([0x80, 0xff, 0xc3, 0xa0]))
+        else:
+            out += rng.choice(ALPHABET)
+    return bytes(out)
+
+
+def _quoted_string(rng, sep):
+    """a well-formed quoted-string whose text contains separators, escaped quotes and escaped backslashes"""
+    atoms = [b'a', b'b', b'z', b' ', b'=', b'\t', b',', b';', b'\\"', b'\\\\', b'\\a', b'\\;', b"'"]
+    if sep:
+        atoms += [sep[:1], sep[-1:], sep[:1] + b' ', b'\\' + sep[:1], b'\\"' + sep[:1], b'\\\\' + sep[-1:]]
+    return b'"' + b''.join(rng.choice(atoms) for _ in range(rng.randrange(0, 6))) + b'"'
+
+
+def _token(rng, sep):
+    return bytes(bytearray(x for x in bytearray(rng.choice(b'abz=.0-/') for _ in range(rng.randrange(1, 4)))
+                           if x not in bytearray(sep)))
+
+
+def _quoted_item(rng, sep, ws):
+    """token, quoted-string, name="…", "…"suffix, several of them with inner whitespace, a backslash outside quotes
+    (an ordinary byte there, also directly in front of a DQUOTE); accepted only if `quoted_item_ok`"""
+    while True:
+        r = rng.random()
+        if r < 0.18:
+            item = _token(rng, sep)
+        elif r < 0.40:
+            item = _quoted_string(rng, sep)
+        elif r < 0.70:
+            item = _token(rng, sep) + b'=' + _quoted_string(rng, sep)
+        elif r < 0.80:
+            item = _token(rng, sep) + _quoted_string(rng, sep) + _token(rng, sep)
+        elif r < 0.90:
+            item = _token(rng, sep) + rng.choice([b' ', b'\t', b'  ']) + _quoted_string(rng, sep) + _quoted_string(rng, sep)
+        else:
+            item = _token(rng, sep) + b'\\' + rng.choice([b'', _token(rng, sep), _quoted_string(rng, sep)])
+        if quoted_item_ok(item, sep, ws):
+            return item
+
+
+def _mutate(rng, data):
+    """one-byte damage: drop a byte, insert a DQUOTE or a backslash, cut the tail"""
+    pos = rng.randrange(len(data) + 1)
+    r = rng.random()
+    if r < 0.3 and data:
+        pos = min(pos, len(data) - 1)
+        return data[:pos] + data[pos + 1:]
+    if r < 0.6:
+        return data[:pos] + b'"' + data[pos:]
+    if r < 0.85:
+        return data[:pos] + b'\\' + data[pos:]
+    return data[:pos]
+
+
+def array_cases_q(rng, tier):
+    """`quote_aware=True`: op TAQ"""
+    cases = []
+    quick = tier == 'quick'
+    for combo in Q_REPO_COMBOS + Q_EXTRA_COMBOS:
+        sep, ws, skip, mx = combo
+
+        def case(data, items=None):
+            c = {'kind': 'ta', 'qa': 1, 'sep': hx(sep), 'ws': hx(ws), 'skip': skip, 'max': mx, 'data': hx(data)}
+            if items is not None:
+                c['items'] = [hx(i) for i in items]
+            cases.append(c)
+        # (a) exhaustive
+        letters = sorted(set([b'a', b' ', b'"', b'\\'] + [bytes(bytearray([x])) for x in bytearray(sep)]))
+        if combo in Q_REPO_COMBOS:
+            n_ex = 6 if quick else 7
+        elif combo in Q_MAIN_EXTRA:
+            n_ex = 5 if quick else 6
+        else:
+            n_ex = 4 if quick else 5
+        for n in range(0, n_ex + 1):
+            for tup in itertools.product(letters, repeat=n):
+                case(b''.join(tup))
+        # (b) seeded strings
+        for _ in range(150 if quick else 4000):
+            case(_rand_bytes_q(rng, rng.randrange(0, 20), sep))
+        # (c) well-formed lists (REQUIRED behaviour where the combination has one separator that is neither whitespace nor
+        # DQUOTE / backslash; otherwise correspondence only, rendered with the first separator)
+        required = len(sep) == 1 and sep not in ws and mx is None and sep not in (b'"', b'\\')
+        rsep = sep[:1] if sep else b';'
+        isep = rsep if rsep not in (b'"', b'\\', b' ') else b';'
+        valid = []
+        for _ in range(200 if quick else 4000):
+            items = [_quoted_item(rng, isep, ws) for _ in range(rng.choice([0, 1, 1, 2, 3, 5]))]
+            data = _render(rng, items, rsep, ws, skip)
+            valid.append(data)
+            if not skip and not items:
+                continue
+            case(data, items if required else None)
+        # (d) malformed lists
+        for text in Q_MALFORMED:
+            text = text.replace(b';', rsep)
+            case(text)
+            if ws:
+                case(ws[-1:] + text + ws[:1])
+        for _ in range(100 if quick else 2000):
+            case(_mutate(rng, rng.choice(valid)))
+    return cases
+
+
 # ------------------------------------------------------------------------------------------------
 # TU  _parse_string_until_separator
 # ------------------------------------------------------------------------------------------------
 
 class UntilOracle(object):
-    """case {'kind':'tu','seps':[hex,…],'may_end':0/1,'ws':hex,'off':n,'data':hex}"""
+    """case {'kind':'tu','seps':[hex,…],'may_end':0/1,'ws':hex,'off':n,'data':hex,'qa':1 (optional: `quote_aware=True`, op TUQ)}"""
 
     @staticmethod
     def lines(case):
         seps = ','.join(case['seps']) if case['seps'] else '~'
-        return ['TU {} {} {} {} {}'.format(seps, case['may_end'], case['ws'], case['off'], case['data'])]
+        return ['{} {} {} {} {} {}'.format('TUQ' if case.get('qa') else 'TU', seps, case['may_end'], case['ws'], case['off'],
+                                           case['data'])]
 
     @staticmethod
     def real(case):
@@ -262,10 +498,12 @@ class UntilOracle(object):
         data = unhx(case['data'])
         seps = [_text(unhx(s)) for s in case['seps']]
 
+        extra = (True,) if case.get('qa') else ()       # quote_aware, the eighth positional parameter
+
         def fn():
             p = ParserText(data)
             return p._parse_string_until_separator(  # pylint: disable=protected-access
-                'x', case['off'], seps, str, None, bool(case['may_end']), _text(unhx(case['ws'])))
+                'x', case['off'], seps, str, None, bool(case['may_end']), _text(unhx(case['ws'])), *extra)
         return timed(fn, TU_TIME_LIMIT, counted=False)
 
     @classmethod
@@ -287,6 +525,14 @@ class UntilOracle(object):
         if unhx(case['ws']) or case['off'] > len(unhx(case['data'])):
             return []
         line = cls.impl(case)[0]
+        if case.get('qa'):
+            if line == NO_QUOTE_AWARE:
+                return no_quote_aware('tu', '_parse_string_until_separator(..., quote_aware=True) raises TypeError: the library has no '
+                                      'quote-aware scan ({}; every quote-aware case fails like this, reported once)'.format(case))
+            want = cls.reference_q(case)
+            if line != want:
+                return [('quoted-separator:until', '_parse_string_until_separator[quote_aware] {} -> {} but the first separator '
+                         'outside a quoted-string (RFC 7230 3.2.6 reference) gives {}'.format(case, line, want))]
         if line.startswith('CRASH'):
             return [('until-crash', '_parse_string_until_separator {} -> {}'.format(case, line))]
         if line.startswith('OK'):
@@ -298,6 +544,31 @@ class UntilOracle(object):
             if not rest and not case['may_end'] and b'' not in [unhx(s) for s in case['seps']]:
                 return [('until-end', '{}: {} accepted the end of input without may_end'.format(case, line))]
         return []
+
+
+    @staticmethod
+    def reference_q(case):
+        """quote-aware scan without separator_spaces, offset inside the buffer: the item ends in front of the first separator
+        that ends at a position outside every quoted-string of the item (first position, then first separator of the list)"""
+        data, off = unhx(case['data']), case['off']
+        seps = [unhx(s) for s in case['seps']]
+        states = quote_states(data[off:])
+        end = None
+        for e in range(off, len(data) + 1):
+            if states[e - off] != Q_OUT:
+                continue
+            hit = [s for s in seps if len(s) <= e - off and data[e - len(s):e] == s]
+            if hit:
+                end = e - len(hit[0])
+                break
+        if end is None:
+            if not case['may_end']:
+                return 'ERR InvalidValue'
+            end = len(data)
+        item = data[off:end]
+        if any(x > 0x7f for x in bytearray(item)):
+            return 'ERR InvalidValue'
+        return 'OK {} {}'.format(len(item), hx(item))
 
 
 # separator lists of parse_string_until_separator[_or_end] under /repo/cryptoparser (a str is iterated per character)
@@ -321,6 +592,43 @@ def until_cases(rng, tier):
                       (b';  ', 1), (b'  ;  ', 3)):
         for may_end in (0, 1):
             cases.append({'kind': 'tu', 'seps': [hx(b';')], 'may_end': may_end, 'ws': hx(b' \t'), 'off': off, 'data': hx(data)})
+    return cases
+
+
+Q_SEPS = [[b','], [b';', b','], [b'\\'], [b'";'], [b'\\"'], [b'"', b';'], [b'";', b';'], [b'; ', b';'], [b'"\\']]
+
+
+def until_cases_q(rng, tier):
+    """`quote_aware=True`: op TUQ"""
+    cases = []
+    quick = tier == 'quick'
+
+    def case(seps, may_end, ws, off, data):
+        cases.append({'kind': 'tu', 'qa': 1, 'seps': [hx(s) for s in seps], 'may_end': may_end, 'ws': hx(ws), 'off': off,
+                      'data': hx(data)})
+    for seps in REPO_SEPS + EXTRA_SEPS + Q_SEPS:
+        pool = b''.join(seps) or b';'
+        for ws in (b'', b' ', b' \t'):
+            for _ in range(40 if quick else 1500):
+                data = _rand_bytes_q(rng, rng.randrange(0, 14), pool)
+                r = rng.random()
+                off = len(data) if r < 0.12 else (len(data) + rng.randrange(1, 3) if r < 0.19 else rng.randrange(0, len(data) + 1))
+                case(seps, rng.randrange(2), ws, off, data)
+    # every short string at every offset (also one behind the end)
+    letters = [b'a', b'"', b'\\', b';', b' ']
+    for n in range(0, (3 if quick else 4) + 1):
+        for tup in itertools.product(letters, repeat=n):
+            data = b''.join(tup)
+            for off in range(0, n + 2):
+                for may_end in (0, 1):
+                    for ws in (b'', b' ', b' \t'):
+                        case([b';'], may_end, ws, off, data)
+    # well-formed and damaged name="quoted" elements, the separator lists of a list scan
+    for text in Q_MALFORMED + [b'a="b; c"; d', b'a="b\\"; c"; d', b'a="b\\\\"; c; d', b'"a; b"="c; d"; e']:
+        for seps in ([b';'], [b';', b' '], [b'"'], [b'=']):
+            for may_end in (0, 1):
+                for off in sorted({0, 1, len(text) // 2, len(text)}):
+                    case(seps, may_end, rng.choice([b'', b'', b' ', b' \t']), off, text)
     return cases
 
 
@@ -472,7 +780,17 @@ SHAPES = {
 }
 
 
-def line_events(data, sep, ws, skip):
+# the same shapes plus quoted material for the quote-aware call (op TKQ, `arrayTicksQ`, proved <= 21*len + 15)
+Q_SHAPES = dict(SHAPES)
+Q_SHAPES.update({
+    'quoted-items': lambda n: b'a="b; c"; ' * (n // 10), 'one-quoted': lambda n: b'"' + b'a;' * ((n - 2) // 2) + b'"',
+    'unclosed': lambda n: b'"' + b'; ' * ((n - 1) // 2), 'escapes': lambda n: b'"' + b'\\"\\\\;' * ((n - 2) // 5) + b'"',
+    'quotes': lambda n: b'"' * n, 'backslashes': lambda n: b'"' + b'\\' * (n - 1), 'empty-quoted': lambda n: b'"";' * (n // 3),
+    'quoted-name-values': lambda n: b'max-age="31536000"; report-uri="https://a.example/r;a=1,2" ; x=";" ;' * (n // 68),
+})
+
+
+def line_events(data, sep, ws, skip, qa=False):
     """Number of 'line' trace events inside cryptoparser/common/parse.py during the real call."""
     import sys
     import cryptoparser.common.parse as parse_module
@@ -488,11 +806,12 @@ def line_events(data, sep, ws, skip):
     def tracer(frame, event, arg):
         return local if frame.f_code.co_filename == filename else None
     parser = ParserText(data)
+    extra = {'quote_aware': True} if qa else {}
     old = sys.gettrace()
     sys.settrace(tracer)
     try:
         try:
-            parser.parse_string_array('x', _text(sep), separator_spaces=_text(ws), skip_empty=bool(skip))
+            parser.parse_string_array('x', _text(sep), separator_spaces=_text(ws), skip_empty=bool(skip), **extra)
         except Exception:  # pylint: disable=broad-except
             pass
     finally:
@@ -509,7 +828,20 @@ def tick_cases(tier):
                 for sep, ws in ((b';', b' '), (b',', b' \t'), (b';', b'')):
                     data = SHAPES[name](n).replace(b';', sep)
                     cases.append({'kind': 'tk', 'shape': name, 'n': n, 'sep': hx(sep), 'ws': hx(ws), 'skip': skip, 'data': hx(data)})
+    for name in sorted(Q_SHAPES):
+        for n in sizes:
+            for skip in (0, 1):
+                for sep, ws in ((b';', b' '), (b',', b' \t'), (b';', b'')):
+                    data = Q_SHAPES[name](n).replace(b';', sep)
+                    cases.append({'kind': 'tk', 'qa': 1, 'shape': name, 'n': n, 'sep': hx(sep), 'ws': hx(ws), 'skip': skip, 'data': hx(data)})
     return cases
+
+
+def _driver_has_tkq():
+    try:
+        return core.run_driver(['TKQ 3b 20 1 613b2062']) != ['BAD-OP']
+    except RuntimeError:
+        return False
 
 
 def run_ticks(run, tier, driver_ok):
@@ -518,20 +850,31 @@ def run_ticks(run, tier, driver_ok):
     cases = tick_cases(tier)
     if not driver_ok:
         return
-    out = core.run_driver(['TK {} {} {} {}'.format(c['sep'], c['ws'], c['skip'], c['data']) for c in cases])
+    if not _driver_has_tkq():
+        run.notes.append('the driver has no TKQ op: the cost model of the quote-aware call is not compared with the code')
+        cases = [c for c in cases if not c.get('qa')]
+    out = core.run_driver(['{} {} {} {} {}'.format('TKQ' if c.get('qa') else 'TK', c['sep'], c['ws'], c['skip'], c['data']) for c in cases])
+    ratios = {False: [], True: []}
     for case, line in zip(cases, out):
+        qa = bool(case.get('qa'))
         run.evaluations += 1
-        run.count('ops', 'tk')
-        run.note_nontrivial(('tk', case['shape'], case['n'], case['sep'], case['ws'], case['skip']))
+        run.count('ops', 'tkq' if qa else 'tk')
+        run.note_nontrivial(('tkq' if qa else 'tk', case['shape'], case['n'], case['sep'], case['ws'], case['skip']))
         ticks = int(line.split(' ')[1]) if line.startswith('OK ') else -1
-        events = line_events(unhx(case['data']), unhx(case['sep']), unhx(case['ws']), case['skip'])
+        events = line_events(unhx(case['data']), unhx(case['sep']), unhx(case['ws']), case['skip'], qa)
         length = len(unhx(case['data']))
-        ok = ticks >= 0 and 2 * ticks - TICK_BETA <= events <= TICK_ALPHA * ticks + TICK_BETA and ticks <= 19 * length + 13
+        bound = 21 * length + 15 if qa else 19 * length + 13       # C18.array_ticks_linear / its quote-aware twin
+        ok = ticks >= 0 and 2 * ticks - TICK_BETA <= events <= TICK_ALPHA * ticks + TICK_BETA and ticks <= bound
+        if ticks > 0:
+            ratios[qa].append(events / float(ticks))
         if not ok:
             run.disagreements.append((dict(case, data=case['data'][:64] + '...'), 0,
-                                      'ticks {} (bound {})'.format(ticks, 19 * length + 13), 'line events {}'.format(events)))
-    run.notes.append('cost model: {} shapes x sizes, line events of the real call within [2*ticks-{b}, {a}*ticks+{b}]'.format(
-        len(cases), a=TICK_ALPHA, b=TICK_BETA))
+                                      'ticks {} (bound {})'.format(ticks, bound), 'line events {}'.format(events)))
+    run.notes.append('cost model: {} shapes x sizes ({} of them quote-aware, op TKQ), line events of the real call within '
+                     '[2*ticks-{b}, {a}*ticks+{b}]; observed line events per tick: {}'.format(
+                         len(cases), sum(1 for c in cases if c.get('qa')), '; '.join(
+                             '{} {:.2f}..{:.2f}'.format('TKQ' if qa else 'TK', min(r), max(r)) for qa, r in sorted(ratios.items()) if r),
+                         a=TICK_ALPHA, b=TICK_BETA))
 
 
 ORACLES = {'ta': ArrayOracle, 'tu': UntilOracle, 'tc': CheckOracle, 'tn': NumericOracle, 'ts': StringOracle,
@@ -553,7 +896,9 @@ class Dispatch(object):
 
 
 def gen_cases(rng, tier):
-    return array_cases(rng, tier) + until_cases(rng, tier) + small_cases(rng, tier)
+    # the quote-aware cases come last: the cases of the other ops are the ones they were for a given seed
+    return array_cases(rng, tier) + until_cases(rng, tier) + small_cases(rng, tier) + array_cases_q(rng, tier) + \
+        until_cases_q(rng, tier)
 
 
 def run(run, driver_ok=True, deep=False):
@@ -561,15 +906,22 @@ def run(run, driver_ok=True, deep=False):
     cases = gen_cases(run.rng, tier)
     marks = bytearray(b' \t;,-=/"\r\n')
     for c in cases:
-        run.count('ops', c['kind'])
+        run.count('ops', c['kind'] + ('q' if c.get('qa') else ''))
         if c['kind'] == 'ta':
-            run.count('array_params', '{}|{}|{}|{}'.format(c['sep'], c['ws'], c['skip'], c['max']))
+            run.count('array_params', '{}{}|{}|{}|{}'.format('quote_aware ' if c.get('qa') else '', c['sep'], c['ws'], c['skip'], c['max']))
+            if c.get('qa') and c.get('items'):
+                run.count('quote_aware', 'required-lists')
         data = unhx(c['data'])
         if any(x in marks for x in bytearray(data)):
-            run.note_nontrivial((c['kind'], c.get('sep'), c.get('ws'), c.get('skip'), c.get('max'), tuple(c.get('seps', ())),
-                                 c.get('off'), c['data']))
+            token = (c['kind'], c.get('sep'), c.get('ws'), c.get('skip'), c.get('max'), tuple(c.get('seps', ())), c.get('off'), c['data'])
+            run.note_nontrivial(token + ('qa',) if c.get('qa') else token)
+    for qa in (None, 1):
+        for c in cases:
+            if c['kind'] == 'ta' and c.get('items') and c.get('qa') == qa and (not qa or b'"' in unhx(c['data'])):
+                run.sample(c)
+                break
     for c in cases:
-        if c['kind'] == 'ta' and c.get('items'):
+        if c['kind'] == 'tu' and c.get('qa') and b'"' in unhx(c['data']) and len(c['data']) > 12:
             run.sample(c)
             break
     for kind in ('tu', 'tc', 'tn', 'ts', 'tl'):
@@ -579,6 +931,10 @@ def run(run, driver_ok=True, deep=False):
                 break
     run.notes.append('exhaustive part: all strings up to length {} over the letter, the separator(s), SP and HTAB for each '
                      'parameter combination used in /repo'.format(5 if tier == 'quick' else 7))
+    run.notes.append('quote_aware=True (ops TAQ/TUQ): all strings up to length {} over a, DQUOTE, backslash, the separator and SP for the '
+                     'NameValuePairList combinations; REQUIRED since the repair `quote_aware`: a separator inside a quoted-string does '
+                     'not split (finding key quoted-separator:split; a library without the parameter violates it)'.format(
+                         6 if tier == 'quick' else 7))
     if driver_ok:
         core.correspond(run, Dispatch, cases)
     else:
